@@ -1,7 +1,6 @@
 package props
 
 import (
-	"sync"
 	"fmt"
 	"go/ast"
 	"go/constant"
@@ -11,6 +10,7 @@ import (
 	"path/filepath"
 	"regexp"
 	"strings"
+	"sync"
 
 	"octoverif/core"
 	"octoverif/engine/absint"
